@@ -61,7 +61,7 @@ def gen_graph(src):
         else:
             nodes.append({"name": name, "kind": "prop", "deps": deps, "cache": src.chance(3, 4), "overridable": src.chance(1, 2),
                           "weights": [1 + src.choice(3) for _ in range(len(avail) if deps == "*" else len(deps))]})
-    return {"bases": bases, "nodes": nodes, "subclass": src.pick([False, False, True, "parent_holds_all", "plain_sub", "override_prop"]), "post_init_read": [m["name"] for m in nodes if m["kind"] == "prop" and src.chance(1, 4)],
+    return {"bases": bases, "nodes": nodes, "subclass": src.pick([False, False, True, "parent_holds_all", "plain_sub", "override_prop", "plain_override_prop"]), "post_init_read": [m["name"] for m in nodes if m["kind"] == "prop" and src.chance(1, 4)],
             "post_init_write": src.pick([None, None, "x", "y"]),  # a dependency is (also) written inside __post_init__, after the reads
             "eager": src.chance(1, 2)}
 
@@ -156,7 +156,7 @@ def build(g, counters):
             ns["__post_init__"] = __post_init__
         P = spec_class(bootstrap=g["eager"])(type("P", (), ns))
         M = spec_class(bootstrap=g["eager"])(type("M", (P,), {"__module__": "vf.generated", "__annotations__": {"extra": int}, "extra": 0}))
-    elif g["subclass"] in ("plain_sub", "override_prop") and all(set(m["deps"]) <= set(g["bases"]) for m in g["nodes"] if m["kind"] == "attr"):
+    elif g["subclass"] in ("plain_sub", "override_prop", "plain_override_prop") and all(set(m["deps"]) <= set(g["bases"]) for m in g["nodes"] if m["kind"] == "attr"):
         # the parent declares the bases and the invalidated attributes; the derived properties come from
         #  - "plain_sub": an UNDECORATED subclass (which shares the parent's metadata), or
         #  - "override_prop": a spec subclass that overrides managed properties the parent declared without any dependencies
@@ -169,7 +169,7 @@ def build(g, counters):
                 pns[node["name"]] = derived_ns[node["name"]]
             else:
                 sub_ns[node["name"]] = derived_ns[node["name"]]
-                if g["subclass"] == "override_prop":
+                if g["subclass"] in ("override_prop", "plain_override_prop"):  # (the latter: overridden by an UNDECORATED subclass)
                     pns["__annotations__"][node["name"]] = int
                     pns[node["name"]] = spec_property(getter(node), cache=node["cache"], overridable=node["overridable"])
         if reads or write:
@@ -365,7 +365,7 @@ def run_case(ctx, case):
 
 def managed_props(g):
     """override_prop shape (when it applies): the properties are annotated on the parent, hence managed attributes."""
-    return g["subclass"] == "override_prop" and all(set(m["deps"]) <= set(g["bases"]) for m in g["nodes"] if m["kind"] == "attr")
+    return g["subclass"] in ("override_prop", "plain_override_prop") and all(set(m["deps"]) <= set(g["bases"]) for m in g["nodes"] if m["kind"] == "attr")
 
 
 def apply_mutation(ctx, case, i, obj, model, op):
